@@ -190,7 +190,14 @@ fn check_hours(ctx: &Ctx, civ: &Civil, ord: usize, loc: &mut Local) {
   // lunar day: 13 slots 00:00, 01:00, 03:00, ..., 23:00 of that civil day
   let r = guard(|| {
     let ld = mk(d).get_lunar_day();
-    ld.get_hours().iter().map(|h| (inst_of(civ, &h.get_solar_time()), h.get_index_in_day(), h.get_lunar_day() == ld)).collect::<Vec<_>>()
+    let hs = ld.get_hours();
+    for h in hs.iter() {
+      let fresh = h.get_solar_time().get_lunar_hour();
+      if h.get_eight_char().get_name() != fresh.get_eight_char().get_name() || h.get_sixty_cycle().get_name() != fresh.get_sixty_cycle().get_name() {
+        panic!("lunar hour slot {}: [{}], built afresh at {}: [{}]", h.get_index_in_day(), h.get_eight_char().get_name(), h.get_solar_time(), fresh.get_eight_char().get_name());
+      }
+    }
+    hs.iter().map(|h| (inst_of(civ, &h.get_solar_time()), h.get_index_in_day(), h.get_lunar_day() == ld)).collect::<Vec<_>>()
   });
   match r {
     Ok(hs) => {
@@ -212,6 +219,11 @@ fn check_hours(ctx: &Ctx, civ: &Civil, ord: usize, loc: &mut Local) {
     let sd = mk(d).get_sixty_cycle_day();
     let hs = sd.get_hours();
     for h in hs.iter() {
+      // a listed slot is the same value as the one built afresh at its instant (all four pillars, eight characters)
+      let fresh = h.get_solar_time().get_sixty_cycle_hour();
+      if h.to_string() != fresh.to_string() || h.get_eight_char().get_name() != fresh.get_eight_char().get_name() {
+        panic!("hour slot {} = {} [{}], built afresh at {}: {} [{}]", h.get_index_in_day(), h, h.get_eight_char().get_name(), h.get_solar_time(), fresh, fresh.get_eight_char().get_name());
+      }
       let back = h.get_sixty_cycle_day();
       // only the day pillar: the slot's day object carries the year / month pillars of the *instant* (C08), which differ
       // from the day-level ones on a Jie day before the Jie instant
